@@ -1013,9 +1013,33 @@ func RuleRV1(c *Ctx) {
 			}
 			return true
 		})
+		// len(X.Responses) inside the size arguments of make(...) only sizes a buffer
+		sizing := map[ast.Expr]bool{}
+		ast.Inspect(fd.Body, func(x ast.Node) bool {
+			call, ok := x.(*ast.CallExpr)
+			if !ok {
+				return true
+			}
+			if id, ok := call.Fun.(*ast.Ident); ok && id.Name == "make" && len(call.Args) >= 2 {
+				for _, a := range call.Args[1:] {
+					ast.Inspect(a, func(y ast.Node) bool {
+						if lc, ok := y.(*ast.CallExpr); ok {
+							if lid, ok := lc.Fun.(*ast.Ident); ok && lid.Name == "len" && len(lc.Args) == 1 {
+								sizing[ast.Unparen(lc.Args[0])] = true
+							}
+						}
+						return true
+					})
+				}
+			}
+			return true
+		})
 		ast.Inspect(fd.Body, func(x ast.Node) bool {
 			sel, ok := x.(*ast.SelectorExpr)
 			if !ok || info.ObjectOf(sel.Sel) != resp {
+				return true
+			}
+			if sizing[sel] {
 				return true
 			}
 			n++
